@@ -168,7 +168,7 @@ def main(tier, only=None):
     quick = tier == 'quick'
     ck.set_deadline(420 if quick else 3000)
     STATES = os.path.join(scratch(), 'states'); os.makedirs(STATES)
-    bases = only or ['ext2', 'ext2dx', 'ext3', 'ext4', 'ext4csum', 'quota', 'inline', 'eashare', 'iexpand']
+    bases = only or ['ext2', 'ext2dx', 'ext3', 'ext4', 'ext4csum', 'quota', 'inline', 'eashare', 'iexpand', 'deepext']
     depth = 2 if quick else 3
     seen = {}; trans = 0; outcomes = {}; maxd = 0; frontier_left = 0
     samples = []
